@@ -6,7 +6,7 @@ from . import compositelib as L
 OCAML = ["composite"]
 GO = ["composite"]
 PROP = "props/C10.v"
-PROOFS = ["proofs/CompositeC10.v"] + L.PROOFS_COMMON
+PROOFS = ["proofs/CompositeC10b.v", "proofs/CompositeMonLink.v", "proofs/CompositeProto.v", "proofs/CompositeProgress.v", "proofs/CompositeC09.v"] + L.PROOFS_COMMON
 
 
 def run(run):
@@ -14,11 +14,11 @@ def run(run):
     if not L.build(run):
         return
     quick = run.tier == "quick"
-    fams = [("corpus:corpus/C10/growth-reload-failure.jsonl", 0, 0), ("c10", 400 if quick else 6000, run.seed), ("boot", 60 if quick else 600, run.seed + 1),
-            ("c11", 80 if quick else 800, run.seed + 2)]
+    fams = [("corpus:corpus/C10/growth-reload-failure.jsonl", 0, 0), ("c10", 1500 if quick else 20000, run.seed), ("boot", 200 if quick else 2000, run.seed + 1),
+            ("c11", 300 if quick else 3000, run.seed + 2)]
     results, cover, summary, scripts, traces = L.run_families(run, fams)
     cnt = L.classify(run, "C10", results, scripts, traces)
-    nerr = 6000 if quick else 200000
+    nerr = 8000 if quick else 200000
     sa, mism = L.check_a(run, ["-mode", "errclass", "-n", nerr, "-seed", run.seed])
     for line in mism[:50]:
         t = line.split()
